@@ -43,7 +43,8 @@ class Callers:
         os.makedirs(self.bin, exist_ok=True)
         sleep = shutil.which("sleep")
         self.procs = {}
-        for name in ("curl", "waagent", "python3", "tool"):
+        # (two program names longer than the 15 bytes the kernel keeps as a task's short name, equal in their first 15)
+        for name in ("curl", "waagent", "python3", "tool", "azure-monitor-agent-core", "azure-monitor-attacker"):
             p = os.path.join(self.bin, name)
             shutil.copyfile(sleep, p)
             os.chmod(p, 0o755)
@@ -265,9 +266,21 @@ class Runner:
         req = dict(case["req"])
         req["headers"] = list(req["headers"]) + [(b"x-verif-token", token.encode())]
         raw = e2e.build_request(req["method"], req["target"], req["headers"], req.get("body"), req.get("chunked"),
-                                req.get("declare", True))
+                                req.get("declare", True), req.get("trailers"))
         t0 = time.time()
-        resp = conn.request(raw, req["method"].encode(), timeout=case.get("timeout", 6.0))
+        if case.get("send_rate"):
+            # a slow client: the head at once, then the body at that many bytes per second
+            i = raw.index(b"\r\n\r\n") + 4
+            ok_ = conn.send(raw[:i])
+            pos = i
+            while ok_ and pos < len(raw):
+                ok_ = conn.send(raw[pos:pos + case["send_rate"]])
+                pos += case["send_rate"]
+                if pos < len(raw):
+                    time.sleep(1.0)
+            resp = conn.read_response(req["method"].encode(), case.get("timeout", 6.0)) if ok_ else None
+        else:
+            resp = conn.request(raw, req["method"].encode(), timeout=case.get("timeout", 6.0))
         t1 = time.time()
         # give the upstream leg a moment to be recorded (it precedes the response, so usually immediate)
         recs = st.hosts.take()
@@ -525,3 +538,45 @@ def abort_storm(stack, callers, n=40, slow_us=4000, dest=None):
         return conn.request(e2e.build_request("GET", "/metadata/instance?after-aborts=1", [(b"Host", b"h")]), b"GET", 6.0)
     finally:
         conn.close()
+
+
+def rules_lookup_fails(binp, count=None, first="ws"):
+    """the actor that holds the rules dies - first exactly while it handles the rules lookup of a request (its reply is dropped), then
+    it is simply gone (the lookup cannot even be sent): returns, per request, what the client got and what reached the hosts.
+    Requests: a non-elevated caller to WireServer and to HostGAPlugin, and callers the (deny-everything) rules refuse on IMDS."""
+    import e2e as _e
+    stack = _e.Stack(binp)
+    out = []
+    try:
+        callers = Callers(stack)
+        deny = {"id": "deny-all", "mode": "enforce", "defaultAccess": "deny", "rules": {"privileges": [], "roles": [], "identities": [], "roleAssignments": []}}
+        for ep in ("ws", "imds", "hostga"):
+            r = stack.ctl("rules %s %s" % (ep, hx(rb.doc_json(deny))))
+            assert r == "ok", r
+        stack.ctl("actorkill key_keeper")      # dies on the next message it handles: the rules lookup of the first request below
+        plan = [("ws", _e.WS, 1000, False), ("imds", _e.IMDS, 1000, False), ("ga", _e.GA, 1001, False), ("ws", _e.WS, 0, True), ("imds", _e.IMDS, 0, True)]
+        if first == "imds":
+            plan = [plan[1], plan[0]] + plan[2:]          # the request whose lookup kills the actor: one that only the rules refuse
+        elif first == "ws-elevated":
+            plan = [plan[3]] + plan[:3] + plan[4:]
+        for k, (label, dest, uid, elev) in enumerate(plan):
+            c = callers.caller(uid, "curl", elev)
+            stack.hosts.take()
+            before = stack.hosts.total_bytes()
+            try:
+                conn = stack.connect(audit=(uid, c["pid"], 1 if elev else 0, dest[0], dest[1]))
+                resp = conn.request(_e.build_request("GET", "/metadata/instance?lookup=%d" % k, [(b"Host", b"h")]), b"GET", 5.0)
+                conn.close()
+            except OSError:
+                resp = None
+            time.sleep(0.05)
+            after = stack.hosts.total_bytes()
+            out.append({"request": "%s caller uid %d%s to %s, rules in force: deny everything" % ("elevated" if elev else "non-elevated", uid, "", label),
+                        "label": label, "elevated": elev, "actor": "dies handling this lookup" if k == 0 else "gone",
+                        "status": resp and resp["status"], "upstream_bytes": sum(after.values()) - sum(before.values())})
+            if count:
+                count("requests_with_the_rules_actor_dead")
+        stack.ctl("khook off")
+    finally:
+        stack.close()
+    return out
